@@ -7,77 +7,70 @@ at the end of the list may disagree (names of declarations dropped / added on on
 -/
 namespace DarkluaModel.Sem.HeapU
 
-/-- `D ⊆ D'` -/
-def DSub (D D' : List DName) : Prop := ∀ x ∈ D, x ∈ D'
-theorem DSub.refl (D : List DName) : DSub D D := fun _ h => h
-theorem DSub.trans {A B C : List DName} (h1 : DSub A B) (h2 : DSub B C) : DSub A C := fun x h => h2 x (h1 x h)
-theorem DSub.refs (ns : List String) (D : List DName) : DSub D (ns.map DName.ref ++ D) :=
-  fun _ h => List.mem_append_right _ h
-
 /-- control results of lists / blocks / last statements: environments agree outside `D` -/
-def ACtl {N : NumOps} (D : List DName) : ARel N (Ctl N) := fun β c c' =>
+def ACtl {N : NumOps} (cx : Cx) (D : List DName) : ARel N (Ctl N) := fun β c c' =>
   match c, c' with
-  | .next e, .next e' => EnvOK β D e e'
-  | .cont e, .cont e' => EnvOK β D e e'
+  | .next e, .next e' => EnvOK cx β D e e'
+  | .cont e, .cont e' => EnvOK cx β D e e'
   | .brk, .brk => True
   | .ret vs, .ret vs' => VsRel β vs vs'
   | _, _ => False
 
 /-- control results of single statements: the environment of a `continue` is irrelevant (the
 enclosing statement list replaces it) -/
-def ACtlS {N : NumOps} (D : List DName) : ARel N (Ctl N) := fun β c c' =>
+def ACtlS {N : NumOps} (cx : Cx) (D : List DName) : ARel N (Ctl N) := fun β c c' =>
   match c, c' with
-  | .next e, .next e' => EnvOK β D e e'
+  | .next e, .next e' => EnvOK cx β D e e'
   | .cont _, .cont _ => True
   | .brk, .brk => True
   | .ret vs, .ret vs' => VsRel β vs vs'
   | _, _ => False
 
-def AOCtlS {N : NumOps} (D : List DName) : ARel N (Option (Ctl N)) := fun β c c' =>
+def AOCtlS {N : NumOps} (cx : Cx) (D : List DName) : ARel N (Option (Ctl N)) := fun β c c' =>
   match c, c' with
   | none, none => True
-  | some c, some c' => ACtlS D β c c'
+  | some c, some c' => ACtlS cx D β c c'
   | _, _ => False
 
 def SoundS (Q : QRel) (cx : Cx) (D : List DName) (x y : Stmt) : Prop :=
   ∀ (N : NumOps) (call : CallFn N) (ρ : ExtOracle N) (k : Nat) (env env' : Env N) (σ σ' : State N) (β : Inj N),
-    POK Q cx call ρ k → SRel Q cx β σ σ' → EnvOK β D env env' →
-      RRel Q cx β (ACtlS D) (execS call ρ k env x σ) (execS call ρ k env' y σ')
+    POK Q cx call ρ k → SRel Q cx β σ σ' → EnvOK cx β D env env' →
+      RRel Q cx β (ACtlS cx D) (execS call ρ k env x σ) (execS call ρ k env' y σ')
 def SoundSs (Q : QRel) (cx : Cx) (D : List DName) (x y : List Stmt) (D' : List DName) : Prop :=
   DSub D D' ∧
   ∀ (N : NumOps) (call : CallFn N) (ρ : ExtOracle N) (k : Nat) (env env' : Env N) (σ σ' : State N) (β : Inj N),
-    POK Q cx call ρ k → SRel Q cx β σ σ' → EnvOK β D env env' →
-      RRel Q cx β (ACtl D') (execSs call ρ k env x σ) (execSs call ρ k env' y σ')
+    POK Q cx call ρ k → SRel Q cx β σ σ' → EnvOK cx β D env env' →
+      RRel Q cx β (ACtl cx D') (execSs call ρ k env x σ) (execSs call ρ k env' y σ')
 def SoundBranches (Q : QRel) (cx : Cx) (D : List DName) (x y : List (Expr × Block)) : Prop :=
   ∀ (N : NumOps) (call : CallFn N) (ρ : ExtOracle N) (k : Nat) (env env' : Env N) (σ σ' : State N) (β : Inj N),
-    POK Q cx call ρ k → SRel Q cx β σ σ' → EnvOK β D env env' →
-      RRel Q cx β (AOCtlS D) (execBranches call ρ k env x σ) (execBranches call ρ k env' y σ')
+    POK Q cx call ρ k → SRel Q cx β σ σ' → EnvOK cx β D env env' →
+      RRel Q cx β (AOCtlS cx D) (execBranches call ρ k env x σ) (execBranches call ρ k env' y σ')
 def SoundL (Q : QRel) (cx : Cx) (D : List DName) (x y : Last) : Prop :=
   ∀ (N : NumOps) (call : CallFn N) (ρ : ExtOracle N) (k : Nat) (env env' : Env N) (σ σ' : State N) (β : Inj N),
-    POK Q cx call ρ k → SRel Q cx β σ σ' → EnvOK β D env env' →
-      RRel Q cx β (ACtl D) (execLast call ρ k env x σ) (execLast call ρ k env' y σ')
+    POK Q cx call ρ k → SRel Q cx β σ σ' → EnvOK cx β D env env' →
+      RRel Q cx β (ACtl cx D) (execLast call ρ k env x σ) (execLast call ρ k env' y σ')
 def SoundB (Q : QRel) (cx : Cx) (D : List DName) (x y : Block) (D' : List DName) : Prop :=
   DSub D D' ∧
   ∀ (N : NumOps) (call : CallFn N) (ρ : ExtOracle N) (k : Nat) (env env' : Env N) (σ σ' : State N) (β : Inj N),
-    POK Q cx call ρ k → SRel Q cx β σ σ' → EnvOK β D env env' →
-      RRel Q cx β (ACtl D') (execB call ρ k env x σ) (execB call ρ k env' y σ')
+    POK Q cx call ρ k → SRel Q cx β σ σ' → EnvOK cx β D env env' →
+      RRel Q cx β (ACtl cx D') (execB call ρ k env x σ) (execB call ρ k env' y σ')
 /-- one iteration of `repeat b until c` -/
 def SoundRep (Q : QRel) (cx : Cx) (D : List DName) (b : Block) (c : Expr) (b' : Block) (c' : Expr) : Prop :=
   ∀ (N : NumOps) (call : CallFn N) (ρ : ExtOracle N) (k : Nat) (env env' : Env N) (σ σ' : State N) (β : Inj N),
-    POK Q cx call ρ k → SRel Q cx β σ σ' → EnvOK β D env env' →
-      RRel Q cx β (AOCtlS D) (repeatStep call ρ k env (fun e s => evalE call ρ k e c s) b σ)
+    POK Q cx call ρ k → SRel Q cx β σ σ' → EnvOK cx β D env env' →
+      RRel Q cx β (AOCtlS cx D) (repeatStep call ρ k env (fun e s => evalE call ρ k e c s) b σ)
         (repeatStep call ρ k env' (fun e s => evalE call ρ k e c' s) b' σ')
 
 variable {Q : QRel} {cx : Cx} {D : List DName}
 
-theorem ACtl.toS {N : NumOps} {D' : List DName} {β : Inj N} {c c' : Ctl N} (h : ACtl D' β c c')
-    (hn : ∀ e, c ≠ .next e) : ACtlS D β c c' := by
+theorem ACtl.toS {N : NumOps} {D' : List DName} {β : Inj N} {c c' : Ctl N} (h : ACtl cx D' β c c')
+    (hn : ∀ e, c ≠ .next e) : ACtlS cx D β c c' := by
   cases c <;> cases c' <;> simp only [ACtl, ACtlS] at h ⊢ <;> first | exact h | exact absurd rfl (hn _)
 
-theorem ACtlS.shape {N : NumOps} {β : Inj N} {c c' : Ctl N} (h : ACtlS D β c c') : CtlShape β c c' := by
+theorem ACtlS.shape {N : NumOps} {β : Inj N} {c c' : Ctl N} (h : ACtlS cx D β c c') : CtlShape β c c' := by
   cases c <;> cases c' <;> simp only [ACtlS, CtlShape] at h ⊢ <;> exact h
 
-theorem ACtl.shape {N : NumOps} {β : Inj N} {c c' : Ctl N} (h : ACtl D β c c') : CtlShape β c c' := by
+theorem ACtl.shape {N : NumOps} {β : Inj N} {c c' : Ctl N} (h : ACtl cx D β c c') : CtlShape β c c' := by
   cases c <;> cases c' <;> simp only [ACtl, CtlShape] at h ⊢ <;> exact h
 
 theorem SoundS.step {a m b} (h : LeS cx.upto a m) (ih : SoundS Q cx D m b) : SoundS Q cx D a b := by
@@ -100,7 +93,7 @@ theorem SoundB.step {a m b D'} (h : LeB cx.upto a m) (ih : SoundB Q cx D m b D')
 
 theorem SoundSs.nil : SoundSs Q cx D [] [] D :=
   ⟨DSub.refl D, fun N call ρ k env env' σ σ' β hp hs he => by
-    simp only [execSs]; exact RRel.ok (A := ACtl D) he hs⟩
+    simp only [execSs]; exact RRel.ok (A := ACtl cx D) he hs⟩
 
 theorem SoundSs.cons {x x' xs xs' D'} (ihx : SoundS Q cx D x x') (ihxs : SoundSs Q cx D xs xs' D') :
     SoundSs Q cx D (x :: xs) (x' :: xs') D' :=
@@ -109,26 +102,26 @@ theorem SoundSs.cons {x x' xs xs' D'} (ihx : SoundS Q cx D x x') (ihxs : SoundSs
     refine RRel.bind (ihx N call ρ k env env' σ σ' β hp hs he) fun β1 h1 c c' hcc _ _ h => ?_
     cases c <;> cases c' <;> simp only [ACtlS] at hcc
     · exact ihxs.2 N call ρ k _ _ _ _ _ hp h hcc
-    · exact RRel.ok (A := ACtl D') trivial h
-    · exact RRel.ok (A := ACtl D') ((he.mono h1).weaken ihxs.1) h
-    · exact RRel.ok (A := ACtl D') hcc h⟩
+    · exact RRel.ok (A := ACtl cx D') trivial h
+    · exact RRel.ok (A := ACtl cx D') ((he.mono h1).weaken ihxs.1) h
+    · exact RRel.ok (A := ACtl cx D') hcc h⟩
 
 theorem SoundL.ret {es es'} (ih : SoundEs Q cx D es es') : SoundL Q cx D (.ret es) (.ret es') := by
   intro N call ρ k env env' σ σ' β hp hs he
   simp only [execLast]
-  exact RRel.bind (ih N call ρ k env env' σ σ' β hp hs he) fun _ _ _ _ hv _ _ h => RRel.ok (A := ACtl D) hv h
+  exact RRel.bind (ih N call ρ k env env' σ σ' β hp hs he) fun _ _ _ _ hv _ _ h => RRel.ok (A := ACtl cx D) hv h
 
 theorem SoundL.brk : SoundL Q cx D .brk .brk := by
-  intro N call ρ k env env' σ σ' β hp hs he; simp only [execLast]; exact RRel.ok (A := ACtl D) trivial hs
+  intro N call ρ k env env' σ σ' β hp hs he; simp only [execLast]; exact RRel.ok (A := ACtl cx D) trivial hs
 
 theorem SoundL.cont : SoundL Q cx D .cont .cont := by
-  intro N call ρ k env env' σ σ' β hp hs he; simp only [execLast]; exact RRel.ok (A := ACtl D) he hs
+  intro N call ρ k env env' σ σ' β hp hs he; simp only [execLast]; exact RRel.ok (A := ACtl cx D) he hs
 
 theorem SoundB.none {ss ss' D'} (ih : SoundSs Q cx D ss ss' D') : SoundB Q cx D (.mk ss none) (.mk ss' none) D' :=
   ⟨ih.1, fun N call ρ k env env' σ σ' β hp hs he => by
     simp only [execB]
     refine RRel.bind (ih.2 N call ρ k env env' σ σ' β hp hs he) fun β1 h1 c c' hcc _ _ h => ?_
-    cases c <;> cases c' <;> simp only [ACtl] at hcc <;> exact RRel.ok (A := ACtl D') hcc h⟩
+    cases c <;> cases c' <;> simp only [ACtl] at hcc <;> exact RRel.ok (A := ACtl cx D') hcc h⟩
 
 theorem SoundB.some {ss ss' l l' D'} (ih : SoundSs Q cx D ss ss' D') (ihl : SoundL Q cx D' l l') :
     SoundB Q cx D (.mk ss (some l)) (.mk ss' (some l')) D' :=
@@ -137,23 +130,23 @@ theorem SoundB.some {ss ss' l l' D'} (ih : SoundSs Q cx D ss ss' D') (ihl : Soun
     refine RRel.bind (ih.2 N call ρ k env env' σ σ' β hp hs he) fun β1 h1 c c' hcc _ _ h => ?_
     cases c <;> cases c' <;> simp only [ACtl] at hcc
     · exact ihl N call ρ k _ _ _ _ _ hp h hcc
-    all_goals exact RRel.ok (A := ACtl D') hcc h⟩
+    all_goals exact RRel.ok (A := ACtl cx D') hcc h⟩
 
 /-- the result of a nested block seen from the enclosing statement -/
 theorem RRel.blockEnd {N : NumOps} {β β1 : Inj N} {D' : List DName} {env env' : Env N} {c c' : Ctl N}
-    {σ σ' : State N} (he : EnvOK β D env env') (h1 : β.le β1) (h : SRel Q cx β1 σ σ') : ACtl D' β1 c c' →
-    RRel Q cx β1 (ACtlS D)
+    {σ σ' : State N} (he : EnvOK cx β D env env') (h1 : β.le β1) (h : SRel Q cx β1 σ σ') : ACtl cx D' β1 c c' →
+    RRel Q cx β1 (ACtlS cx D)
       (match c with | .next _ => (Res.ok (Ctl.next env) σ : Res N (Ctl N)) | other => .ok other σ)
       (match c' with | .next _ => .ok (.next env') σ' | other => .ok other σ') := by
   intro hcc
   cases c <;> cases c' <;> simp only [ACtl] at hcc
-  · exact RRel.ok (A := ACtlS D) (he.mono h1) h
-  · exact RRel.ok (A := ACtlS D) trivial h
-  · exact RRel.ok (A := ACtlS D) trivial h
-  · exact RRel.ok (A := ACtlS D) hcc h
+  · exact RRel.ok (A := ACtlS cx D) (he.mono h1) h
+  · exact RRel.ok (A := ACtlS cx D) trivial h
+  · exact RRel.ok (A := ACtlS cx D) trivial h
+  · exact RRel.ok (A := ACtlS cx D) hcc h
 
 theorem SoundBranches.nil : SoundBranches Q cx D [] [] := by
-  intro N call ρ k env env' σ σ' β hp hs he; simp only [execBranches]; exact RRel.ok (A := AOCtlS D) trivial hs
+  intro N call ρ k env env' σ σ' β hp hs he; simp only [execBranches]; exact RRel.ok (A := AOCtlS cx D) trivial hs
 
 theorem SoundBranches.cons {c c' b b' xs xs' D'} (ihc : SoundE Q cx D c c') (ihb : SoundB Q cx D b b' D')
     (ihxs : SoundBranches Q cx D xs xs') : SoundBranches Q cx D ((c, b) :: xs) ((c', b') :: xs') := by
@@ -164,7 +157,7 @@ theorem SoundBranches.cons {c c' b b' xs xs' D'} (ihc : SoundE Q cx D c c') (ihb
   split
   · refine RRel.bind (ihb.2 N call ρ k env env' _ _ _ hp h (he.mono h1)) fun β2 h2 ct ct' hcc _ _ h => ?_
     have he2 := (he.mono h1).mono h2
-    cases ct <;> cases ct' <;> simp only [ACtl] at hcc <;> refine RRel.ok (A := AOCtlS D) ?_ h <;>
+    cases ct <;> cases ct' <;> simp only [ACtl] at hcc <;> refine RRel.ok (A := AOCtlS cx D) ?_ h <;>
       simp only [AOCtlS, ACtlS] <;> first | exact he2 | exact hcc
   · exact ihxs N call ρ k env env' _ _ _ hp h (he.mono h1)
 
